@@ -73,7 +73,10 @@ async def run_real_async(ops, handlers, n_cons, short_lived=False):
         if op["o"] == "sub":
             if op["k"] not in cons:
                 cons[op["k"]] = InternalStateConsumer(mk(op["k"]))
-            await cons[op["k"]].subscribe(list(op["topics"]))
+            # the protocol takes any Iterable[str]: lists, sets, tuples and ONE-SHOT iterables (generators, map objects)
+            tl = list(op["topics"])
+            shape = (len(tl) + sum(len(t) for t in tl) + op["k"]) % 4
+            await cons[op["k"]].subscribe(tl if shape == 0 else (tuple(tl) if shape == 1 else (iter(tl) if shape == 2 else (t for t in tl))))
         else:
             produced.setdefault(op["T"], []).append(op["v"])
             await produce(op["T"], op["v"])
